@@ -180,6 +180,20 @@ def check(run, prop):
     ctx = prop.Context(run, tables)
     # 3+4: corpus, correspondence, oracle
     escalate = bool(ob['broken'])
+    # soft pattern triggers: a regular expression of the component was edited (perhaps
+    # equivalently): no obligation is broken, but the search runs with its escalated budget
+    changed_patterns = []
+    try:
+        with open(os.path.join(HERE, 'expected_patterns.json')) as fp:
+            expected = json.load(fp)
+        for g in getattr(prop, 'SOFT_PATTERNS', []):
+            if (tables or {}).get(g) != expected.get(g):
+                changed_patterns.append(g)
+    except (OSError, ValueError):
+        pass
+    if changed_patterns:
+        run.note('pattern tables %s differ from the ones the model was written for: escalated search' % changed_patterns)
+        escalate = True
     import cover
     cv = cover.Cover(os.path.join(common.REPO, 'python', 'pydiffx'))
     cv.start()
@@ -258,6 +272,7 @@ def check(run, prop):
         'fingerprints': (tables or {}).get('fingerprints', {}),
         'generated_tables_changed_this_run': ob['generated_changed'],
         'leanchecker': ob.get('leanchecker'),
+        'changed_pattern_tables': changed_patterns,
         # which lines of the implementation (function bodies of pydiffx/, tests excluded) the
         # inputs of this run executed: a measure of the generators, not a verdict
         'implementation_lines': cover.summarise(cv.report(), cv.root),
